@@ -5,6 +5,7 @@ import Proofs.C09.Spec
 import Proofs.C09.Examples
 import Proofs.C09.Refusals
 import Proofs.C09.FindAndDelete
+import Proofs.C09.FromTx
 /-!
 # C09 — signature hashes equal the legacy, BIP143 and BIP341 definitions
 
@@ -579,6 +580,40 @@ theorem psbt_refuses_bad_index_and_missing_utxo (S : Bytes → Bytes) (inputs : 
       rw [hv]
       exact ⟨rfl, rfl⟩
 
+/-! ## T6 — `from_tx`: the dispatch -/
+
+/-- T6: whatever `from_tx` answers is the answer of the ONE single-algorithm function its dispatch names, on the
+    arguments it derives: the index names an input, there is one spent output per input, and
+    * a p2tr previous output: no codeseparator index, and `taproot` with the annex and extension
+      `taproot_annex_and_ext` reads off the input's witness stack (extension flag 1 iff the extension is not empty);
+    * else, with `script` the previous output's script or -- for p2sh -- the redeem script `redeem_script` checked
+      against its hash: p2wpkh ⇒ no codeseparator index and `segwit_v0` over the p2pkh script of the program with the
+      spent amount; p2wsh ⇒ `segwit_v0` over the last witness element from the codesep-th separator on, with the
+      spent amount; otherwise not taproot (p2sh-wrapped taproot is refused) and `legacy` over the script from the
+      codesep-th separator on.
+    With the layer ties (`taproot_is_bip341`, `segwit_v0_is_bip143`, `legacy_is_core_signature_hash`) and
+    `annex_is_tagged_last_element` each branch is the specification's digest. -/
+theorem from_tx_is_the_dispatched_algorithm (S H160 : Bytes → Bytes) (prevouts : List TxOut) (tx : Tx)
+    (wits : List (List Bytes)) (i ht : Int) (pre : Option Impl.Precomputed) (codesep : Int) (d : Bytes)
+    (h : Impl.fromTx S H160 prevouts tx wits i ht pre codesep = .ok d) :
+    0 ≤ i ∧ i < tx.vin.length ∧ prevouts.length = tx.vin.length ∧
+    (if Impl.isP2tr (prevouts.getD i.toNat blankOut).spk then
+      codesep = 0 ∧ ∃ annex ext, Impl.annexAndExt S (wits.getD i.toNat []) = .ok (annex, ext) ∧
+        Impl.taproot S tx i prevouts ht (if ext.isEmpty then 0 else 1) annex ext pre = .ok d
+    else ∃ script,
+      (if Impl.isP2sh (prevouts.getD i.toNat blankOut).spk then
+          Impl.redeemScript H160 (tx.vin.getD i.toNat dfltIn).scriptSig (prevouts.getD i.toNat blankOut).spk = .ok script
+        else script = (prevouts.getD i.toNat blankOut).spk) ∧
+      (if Impl.isP2wpkh script then
+        codesep = 0 ∧
+          Impl.segwitV0 S (Impl.p2pkhScript (script.drop 2)) tx i ht (prevouts.getD i.toNat blankOut).value pre = .ok d
+      else if Impl.isP2wsh script then
+        ∃ ws sc, (wits.getD i.toNat []).getLast? = some ws ∧ scriptCodeFrom ws codesep = some sc ∧
+          Impl.segwitV0 S sc tx i ht (prevouts.getD i.toNat blankOut).value pre = .ok d
+      else Impl.isP2tr script = false ∧
+        ∃ sc, scriptCodeFrom script codesep = some sc ∧ Impl.legacy S sc tx i ht = .ok d)) :=
+  Impl.fromTx_ok h
+
 /-! ## T4 — OP_CODESEPARATOR removal -/
 
 /-- T4: reading the stripped script operation by operation (Core's `GetOp`) gives exactly the operations of
@@ -734,5 +769,11 @@ example : findAndDelete [1, 1, 1, 1] [1, 1] = ([], 2) ∧
     Impl.findAndDeleteImpl [0x51, 0x02] [0x51] = ([0x02], 1) ∧
     legacyScriptCode [0x00, 0xAB, 0x01, 0x07, 0xAB, 0x51] 2 [[0x07]] = [0xAB, 0x51] ∧
     Impl.calculateScriptCode [0x00, 0xAB, 0x01, 0x07, 0xAB, 0x51] 2 [[0x07]] true false = .error .value := by decide
+
+-- from_tx answers on a key path spend with an annex ([signature, 0x50-tagged annex]) and the annex is handed on
+example : (Impl.fromTx id id [⟨1000, 0x51 :: 0x20 :: List.replicate 32 7⟩] exTx [[[1, 2], [0x50, 9]]] 0 0 none 0).toOption.isSome
+      = true ∧
+    Impl.fromTx id id [⟨1000, 0x51 :: 0x20 :: List.replicate 32 7⟩] exTx [[[1, 2], [0x50, 9]]] 0 0 none 0 =
+      Impl.taproot id exTx 0 [⟨1000, 0x51 :: 0x20 :: List.replicate 32 7⟩] 0 0 [0x50, 9] [] none := by decide +kernel
 
 end Props.C09
